@@ -160,3 +160,85 @@ Print Assumptions C07_turn_search_terminates.
 Print Assumptions C07_turn_step_returns.
 Print Assumptions C07_first_turn_prefix_refuted.
 Print Assumptions chk_C07_model.
+
+(* ==== fairness over ROUNDS of the turn-based manager (proofs: Proofs/Fairness_proofs.v) ====
+   Any simulation with stable done flags, any in-protocol history [cs] from the initial state,
+   [t] its trace; positions i < j in t in the same episode ([same_episode t i j]: no response
+   strictly between them is a successful reset; rejected, failing and repeated calls may occur
+   anywhere).  [has_turn e a]: the response of entry e is an output with __all__ = false that
+   reports a with done = false, i.e. a is the agent who may act next.  "Live" means: not in the
+   manager's done set ([m_done]) -- for the second theorem after entry j, the weakest reading
+   (the done set only grows within an episode). *)
+From Abm Require Import Proofs.Fairness_proofs.
+Open Scope nat_scope.
+
+Section Rounds.
+  Context {St Obs Info Act : Type}.
+  Variable Sim : simulation St Obs Info Act.
+
+  (* ---- each such output gives the turn to exactly one agent: a learning agent that is not in
+          the done set before the call nor after it ---- *)
+  Theorem C07_turn_one_at_a_time : done_stable Sim -> forall s0 cs,
+    let t := trace Sim MTurn (init s0) Fresh cs in
+    in_protocol t ->
+    forall j ej a, nth_error t j = Some ej -> has_turn ej a ->
+    In a (order Sim) /\ ~ In a (m_done (te_pre ej)) /\ ~ In a (m_done (te_post ej)) /\
+    forall a', has_turn ej a' -> a' = a.
+  Proof. exact (one_turn_per_output Sim). Qed.
+
+  (* ---- once per round.  If a has the turn at entry i and again at entry j > i of the same
+          episode, then every other learning agent b that is not in the done set after entry
+          j had the turn at some entry strictly between; and if a had no turn in between
+          (two CONSECUTIVE turns of a) b had it at exactly one entry.  So no live agent is
+          passed over while another is served twice.  (Agents in the done set after j were
+          reported done=true on the way or earlier: C07_turn_order, C01_done_bookkeeping.) ---- *)
+  Theorem C07_turn_fair_round : done_stable Sim -> forall s0 cs,
+    let t := trace Sim MTurn (init s0) Fresh cs in
+    in_protocol t ->
+    forall i j ei ej a, i < j -> nth_error t i = Some ei -> nth_error t j = Some ej ->
+    has_turn ei a -> has_turn ej a -> same_episode t i j ->
+    forall b, In b (order Sim) -> b <> a -> ~ In b (m_done (te_post ej)) ->
+    (exists l e, i < l < j /\ nth_error t l = Some e /\ has_turn e b) /\
+    ((forall l e, i < l < j -> nth_error t l = Some e -> ~ has_turn e a) ->
+     forall l1 l2 e1 e2, i < l1 < j -> i < l2 < j ->
+       nth_error t l1 = Some e1 -> nth_error t l2 = Some e2 ->
+       has_turn e1 b -> has_turn e2 b -> l1 = l2).
+  Proof. exact (fair_round Sim). Qed.
+
+  (* ---- the sequence of turns: if a has the turn at entry i, c at entry j > i of the same
+          episode and nobody in between, then c is the first agent behind a in cyclic listing
+          order that is not in the done set: the D positions passed over all hold agents that
+          are in the done set after entry j ---- *)
+  Theorem C07_turn_next_in_cycle : done_stable Sim -> forall s0 cs,
+    let t := trace Sim MTurn (init s0) Fresh cs in
+    in_protocol t ->
+    forall i j ei ej a c, i < j -> nth_error t i = Some ei -> nth_error t j = Some ej ->
+    has_turn ei a -> has_turn ej c -> same_episode t i j ->
+    (forall l e b, i < l < j -> nth_error t l = Some e -> ~ has_turn e b) ->
+    let L := length (order Sim) in
+    exists pa D, pa < L /\ a = nth pa (order Sim) 0 /\ c = nth ((pa + 1 + D) mod L) (order Sim) 0 /\
+      ~ In a (m_done (te_post ei)) /\ ~ In c (m_done (te_post ej)) /\
+      forall x, x < D -> In (nth ((pa + 1 + x) mod L) (order Sim) 0) (m_done (te_post ej)).
+  Proof. exact (next_in_cycle Sim). Qed.
+End Rounds.
+
+(* ---- non-vacuity: five learning agents under the turn-based manager; a0 has the turn at
+        entry 5 and again at entry 8; in between a1 and a3 finish and are passed over (done set
+        [1; 3] afterwards), the live a2 and a4 get one turn each (entries 6 and 7) ---- *)
+Example C07_fair_round_nonvacuous :
+  let SS := script_sim fr_sc in
+  let t := trace SS MTurn (init (ss_init fr_sc)) Fresh fr_cs in
+  done_stable SS /\ in_protocol t /\
+  map turn_of t = [[]; [1]; [2]; [3]; [4]; [0]; [2]; [4]; [0]] /\
+  map (fun e => m_done (te_post e)) t = [[]; []; []; []; []; []; [1]; [1; 3]; [1; 3]] /\
+  order SS = [0; 1; 2; 3; 4] /\
+  same_episode t 5 8 /\
+  exists ei ej, nth_error t 5 = Some ei /\ nth_error t 8 = Some ej /\
+    has_turn ei 0 /\ has_turn ej 0 /\
+    ~ In 2 (m_done (te_post ej)) /\ ~ In 4 (m_done (te_post ej)) /\
+    In 1 (m_done (te_post ej)) /\ In 3 (m_done (te_post ej)).
+Proof. exact fr_nonvacuous. Qed.
+
+Print Assumptions C07_turn_one_at_a_time.
+Print Assumptions C07_turn_fair_round.
+Print Assumptions C07_turn_next_in_cycle.
